@@ -102,11 +102,53 @@ impl<T> Item<T> {
             Err(e) => final(s).kv@ == old(s).kv@ && (self.has(old(s)) ==> action.ensures((self.get(old(s)),), Err(e))),
         } { unimplemented!() }
 }
+// ---- storage keys: injective byte encodings (cw-storage-plus PrimaryKey), compared by CONTENT (views) ----
+pub uninterp spec fn enc_str(s: Seq<char>) -> Seq<u8>;
+pub uninterp spec fn dec_str(b: Seq<u8>) -> Seq<char>;
+pub broadcast axiom fn ax_enc_str(s: Seq<char>) ensures dec_str(#[trigger] enc_str(s)) == s;
+pub uninterp spec fn enc_u64(n: u64) -> Seq<u8>;
+pub uninterp spec fn dec_u64(b: Seq<u8>) -> u64;
+pub broadcast axiom fn ax_enc_u64(n: u64) ensures dec_u64(#[trigger] enc_u64(n)) == n;
+pub uninterp spec fn enc_pair(a: Seq<u8>, b: Seq<u8>) -> Seq<u8>;
+pub uninterp spec fn pair_fst(p: Seq<u8>) -> Seq<u8>;
+pub uninterp spec fn pair_snd(p: Seq<u8>) -> Seq<u8>;
+pub broadcast axiom fn ax_enc_pair(a: Seq<u8>, b: Seq<u8>) ensures pair_fst(#[trigger] enc_pair(a, b)) == a, pair_snd(enc_pair(a, b)) == b;
+pub trait KeyEnc: Sized { spec fn key_bytes(self) -> Seq<u8>; }
+impl KeyEnc for &Addr { open spec fn key_bytes(self) -> Seq<u8> { enc_str(self.s@) } }
+impl KeyEnc for &str { open spec fn key_bytes(self) -> Seq<u8> { enc_str(self@) } }
+impl KeyEnc for &String { open spec fn key_bytes(self) -> Seq<u8> { enc_str(self@) } }
+impl KeyEnc for String { open spec fn key_bytes(self) -> Seq<u8> { enc_str(self@) } }
+impl KeyEnc for &[u8] { open spec fn key_bytes(self) -> Seq<u8> { self@ } }
+impl KeyEnc for u64 { open spec fn key_bytes(self) -> Seq<u8> { enc_u64(self) } }
+impl<A: KeyEnc, B: KeyEnc> KeyEnc for (A, B) { open spec fn key_bytes(self) -> Seq<u8> { enc_pair(self.0.key_bytes(), self.1.key_bytes()) } }
+impl<A: KeyEnc, B: KeyEnc, C: KeyEnc> KeyEnc for (A, B, C) { open spec fn key_bytes(self) -> Seq<u8> { enc_pair(enc_pair(self.0.key_bytes(), self.1.key_bytes()), self.2.key_bytes()) } }
+
 pub struct Map<K, T> { pub ns: u64, pub _p: PhantomData<(K, T)> }
-impl<K, T> Map<K, T> {
-    pub open spec fn key(&self, k: K) -> (int, Seq<u8>) { (self.ns as int, enc_key::<K>(k)) }
-    pub open spec fn has(&self, s: &Storage, k: K) -> bool { s.kv@.contains_key(self.key(k)) }
-    pub open spec fn get(&self, s: &Storage, k: K) -> T { de::<T>(s.kv@[self.key(k)]) }
+/// a fully specified key of a Map (cw-storage-plus `Path`)
+pub struct Path<T> { pub ns: u64, pub kb: Ghost<Seq<u8>>, pub _p: PhantomData<T> }
+impl<T> Path<T> {
+    pub open spec fn key(&self) -> (int, Seq<u8>) { (self.ns as int, self.kb@) }
+    pub open spec fn has(&self, s: &Storage) -> bool { s.kv@.contains_key(self.key()) }
+    pub open spec fn get(&self, s: &Storage) -> T { de::<T>(s.kv@[self.key()]) }
+    #[verifier::external_body]
+    pub fn load(&self, s: &Storage) -> (r: Result<T, StdError>)
+        ensures self.has(s) ==> (r is Ok && r->Ok_0 == self.get(s)), !self.has(s) ==> r is Err { unimplemented!() }
+    #[verifier::external_body]
+    pub fn may_load(&self, s: &Storage) -> (r: Result<Option<T>, StdError>)
+        ensures r is Ok, self.has(s) ==> r->Ok_0 == Some(self.get(s)), !self.has(s) ==> r->Ok_0 is None { unimplemented!() }
+    #[verifier::external_body]
+    pub fn save(&self, s: &mut Storage, v: &T) -> (r: Result<(), StdError>)
+        ensures r is Ok, final(s).kv@ == old(s).kv@.insert(self.key(), ser::<T>(*v)) { unimplemented!() }
+    #[verifier::external_body]
+    pub fn remove(&self, s: &mut Storage)
+        ensures final(s).kv@ == old(s).kv@.remove(self.key()) { unimplemented!() }
+}
+impl<K: KeyEnc, T> Map<K, T> {
+    pub open spec fn skey(&self, k: K) -> (int, Seq<u8>) { (self.ns as int, k.key_bytes()) }
+    pub open spec fn has(&self, s: &Storage, k: K) -> bool { s.kv@.contains_key(self.skey(k)) }
+    pub open spec fn get(&self, s: &Storage, k: K) -> T { de::<T>(s.kv@[self.skey(k)]) }
+    #[verifier::external_body]
+    pub fn key(&self, k: K) -> (r: Path<T>) ensures r.ns == self.ns, r.kb@ == k.key_bytes() { unimplemented!() }
     #[verifier::external_body]
     pub fn load(&self, s: &Storage, k: K) -> (r: Result<T, StdError>)
         ensures self.has(s, k) ==> (r is Ok && r->Ok_0 == self.get(s, k)), !self.has(s, k) ==> r is Err { unimplemented!() }
@@ -115,10 +157,10 @@ impl<K, T> Map<K, T> {
         ensures r is Ok, self.has(s, k) ==> r->Ok_0 == Some(self.get(s, k)), !self.has(s, k) ==> r->Ok_0 is None { unimplemented!() }
     #[verifier::external_body]
     pub fn save(&self, s: &mut Storage, k: K, v: &T) -> (r: Result<(), StdError>)
-        ensures r is Ok, final(s).kv@ == old(s).kv@.insert(self.key(k), ser::<T>(*v)) { unimplemented!() }
+        ensures r is Ok, final(s).kv@ == old(s).kv@.insert(self.skey(k), ser::<T>(*v)) { unimplemented!() }
     #[verifier::external_body]
     pub fn remove(&self, s: &mut Storage, k: K)
-        ensures final(s).kv@ == old(s).kv@.remove(self.key(k)) { unimplemented!() }
+        ensures final(s).kv@ == old(s).kv@.remove(self.skey(k)) { unimplemented!() }
     #[verifier::external_body]
     pub fn has_key(&self, s: &Storage, k: K) -> (r: bool) ensures r == self.has(s, k) { unimplemented!() }
 }
@@ -352,5 +394,5 @@ impl Response {
     #[verifier::external_body] pub fn set_data(self, d: Binary) -> (r: Response)
         ensures r.messages@ == self.messages@, r.data == Some(d) { unimplemented!() }
 }
-pub broadcast group group_cw_axioms { ax_string_ext, ax_mk_string, ax_de_ser, ax_dec_enc_key, ax_binary_mk, ax_binary_ext, ax_raw_bank_balance, ax_raw_smart, lemma_coins_view_empty, lemma_coins_view_one, ax_to_string_string, vstd::string::to_string_from_display_ensures_for_str }
+pub broadcast group group_cw_axioms { ax_string_ext, ax_mk_string, ax_de_ser, ax_dec_enc_key, ax_enc_str, ax_enc_u64, ax_enc_pair, ax_binary_mk, ax_binary_ext, ax_raw_bank_balance, ax_raw_smart, lemma_coins_view_empty, lemma_coins_view_one, ax_to_string_string, vstd::string::to_string_from_display_ensures_for_str }
 //@broadcast group_cw_axioms
